@@ -704,6 +704,139 @@ def run_canon(a, b):
     return out
 
 
+# ------------------------------------------------------------------ __getstate__/__setstate__/replace (kinds 8, 9)
+OBJ_SAMPLES = [("IN", "MX", "10 mail.example."), ("IN", "SOA", "ns. h. 1 2 3 4 5"), ("IN", "A", "10.0.0.1"),
+               ("IN", "TXT", '"a" "bc"'), ("IN", "NS", "ns1.example."), ("IN", "OPENPGPKEY", "AQIDBA=="),
+               ("IN", "BRID", "AQID"), ("IN", "DS", "12345 8 1 00112233445566778899aabbccddeeff00112233"),
+               ("IN", "TYPE65280", "\\# 2 abcd")]
+
+
+class _ObjCodec:
+    """attribute names <-> numbers, field values <-> pval (opaque values by table index)"""
+
+    def __init__(self, rd):
+        self.rd = rd
+        self.slots = list(rd._get_all_slots())
+        names = ["rdclass", "rdtype", "rdcomment"]
+        extra = [n for n in self.slots if n not in names] + sorted(getattr(rd, "__dict__", {}).keys())
+        extra += [p for p in inspect.signature(rd.__init__).parameters if p not in names and p not in extra]
+        self.names = names + extra + ["zz_unknown"]
+        self.opaque = []
+
+    def nid(self, n):
+        return self.names.index(n)
+
+    def enc(self, v):
+        try:
+            if isinstance(v, enum.Enum):
+                raise ValueError
+            return from_py(v)
+        except (ValueError, UnicodeEncodeError):
+            for i, o in enumerate(self.opaque):
+                if o is v or (type(o) is type(v) and o == v):
+                    return [10, i]
+            self.opaque.append(v)
+            return [10, len(self.opaque) - 1]
+
+    def dec(self, p):
+        if p[0] == 10:
+            return self.opaque[p[1]]
+        if p[0] == 6:
+            return tuple(self.dec(x) for x in p[1])
+        return to_py(p)
+
+    def alist(self, d):
+        return [[self.nid(k), self.enc(v)] for k, v in d.items()]
+
+
+def _obj_of(sample):
+    rd = dns.rdata.from_text(sample[0], sample[1], sample[2], relativize=False)
+    return rd, _ObjCodec(rd)
+
+
+def gen_obj_case(rng):
+    si = rng.randrange(len(OBJ_SAMPLES))
+    rd, cd = _obj_of(OBJ_SAMPLES[si])
+    cs = [cd.nid(n) for n in cd.slots]
+    hd = int(hasattr(rd, "__dict__"))
+    sl = [[cd.nid(n), cd.enc(getattr(rd, n))] for n in cd.slots]
+    dc = cd.alist(getattr(rd, "__dict__", {}))
+    state = cd.alist(rd.__getstate__())
+    r = rng.random()
+    if r < 0.5:
+        pass
+    elif r < 0.7:
+        rng.shuffle(state)
+    elif r < 0.85:
+        state = [kv for kv in state if kv[0] != 2]          # an old pickle without rdcomment
+    else:
+        state.append([cd.nid("zz_unknown"), [1, 7]])
+    return [8, si, cs, hd, sl, dc, state]
+
+
+def gen_replace_case(rng):
+    slotted = [i for i, smp in enumerate(OBJ_SAMPLES) if smp[1] not in ("OPENPGPKEY", "BRID")]
+    si = rng.choice(slotted)
+    rd, cd = _obj_of(OBJ_SAMPLES[si])
+    params = list(inspect.signature(rd.__init__).parameters)
+    cs = [cd.nid(n) for n in cd.slots]
+    sl = [[cd.nid(n), cd.enc(getattr(rd, n))] for n in cd.slots]
+    kw = []
+    for pname in params[2:]:
+        if rng.random() < 0.4:
+            v = getattr(rd, pname)
+            if isinstance(v, int) and not isinstance(v, enum.Enum):
+                v = rng.choice([0, 1, 7, 200])
+            elif isinstance(v, bytes) and OBJ_SAMPLES[si][1] != "DS":
+                v = rng.choice([b"\x01", b"ab"])
+            elif isinstance(v, dns.name.Name):
+                v = dns.name.from_text(rng.choice(["x.", "Y.example."]))
+            kw.append([cd.nid(pname), cd.enc(v)])
+    r = rng.random()
+    if r < 0.1:
+        kw.append([rng.choice([0, 1]), [1, 1]])                   # rdclass / rdtype cannot be replaced
+    elif r < 0.2:
+        kw.append([cd.nid("zz_unknown"), [1, 1]])
+    elif r < 0.4:
+        kw.append([2, rng.choice([[4, b"a comment"], [5]])])
+    # the opaque table travels with the case: texts of names
+    return [9, si, [cd.nid(n) for n in params], cs, 0, sl, [], kw, [o.to_text().encode() if isinstance(o, dns.name.Name) else repr(o).encode() for o in cd.opaque]]
+
+
+def _read_obj(cd, o):
+    sl = [cd.enc(getattr(o, n)) if hasattr(o, n) else None for n in cd.slots]
+    return [sl, cd.alist(getattr(o, "__dict__", {}))]
+
+
+def run_obj(case):
+    rd, cd = _obj_of(OBJ_SAMPLES[case[1]])
+    if case[0] == 8:
+        # prime the opaque table exactly as the generator did
+        [cd.enc(getattr(rd, n)) for n in cd.slots]
+        cd.alist(getattr(rd, "__dict__", {}))
+        out = [cd.alist(rd.__getstate__())]
+        state = {cd.names[k]: cd.dec(v) for k, v in case[6]}
+        try:
+            new = type(rd).__new__(type(rd))
+            new.__setstate__(state)
+            out.append(_read_obj(cd, new))
+        except Exception as e:  # noqa
+            out.append(exc_code(e))
+        return out
+    [cd.enc(getattr(rd, n)) for n in cd.slots]
+    for t in case[8][len(cd.opaque):]:
+        cd.opaque.append(dns.name.from_text(t.decode()))
+    before = rd.to_digestable(ROOT)
+    kw = {cd.names[k]: cd.dec(v) for k, v in case[7]}
+    try:
+        new = rd.replace(**kw)
+    except Exception as e:  # noqa
+        return exc_code(e)
+    if rd.to_digestable(ROOT) != before or new is rd:
+        return Err(500, "replace changed the original record")
+    return _read_obj(cd, new)
+
+
 # ------------------------------------------------------------------ impl
 
 
@@ -743,6 +876,8 @@ def _impl(case):
         return from_py(r)
     if k == 7:
         return run_canon(case[1], case[2])
+    if k in (8, 9):
+        return run_obj(case)
     return Err(900, "bad case")
 
 
@@ -1141,6 +1276,11 @@ def _cases(ctx):
             vb = va
         if all(sum(len(l) + 1 for l in v) <= 255 for k, v in list(zip(kinds, va)) + list(zip(kinds, vb)) if k == "name"):
             yield "canon", [7, canon_rec(0, ct, va), canon_rec(1, ctb, vb)]
+    # ---- __getstate__ / __setstate__ (copy, pickle) and replace()
+    for _ in range(ctx.n(200, 1500)):
+        yield "getstate", gen_obj_case(rng)
+    for _ in range(ctx.n(200, 1500)):
+        yield "replace", gen_replace_case(rng)
     # ---- Rdata._as_bytes / _as_tuple(_as_bytes): what a binary field is normalised through
     for _ in range(ctx.n(300, 2000)):
         r = rng.random()
@@ -1674,6 +1814,11 @@ def oracle(ctx, kind, case, out):
         F.append(d)
 
     if isinstance(out, Err):
+        if case[0] == 9 and out.code == 103:
+            kw9 = {a for a, _ in case[7]}
+            if not any(a != 2 and (a not in case[2] or a in (0, 1)) for a in kw9):
+                fail("replace() refused legal fields")
+            return F
         if out.code != 900 and not (case[0] == 6 and out.code in (1, 4)):
             fail("unexpected exception " + out.text)
         return F
@@ -1694,6 +1839,28 @@ def oracle(ctx, kind, case, out):
             fail("constify changed the content", sig="constify")
     elif k == 7:
         oracle_canon(case, out, fail)
+    elif k == 8:
+        # a copy (cls.__new__ + __setstate__(__getstate__())) has the fields of the original
+        state, res = out
+        if sorted(map(repr, case[6])) == sorted(map(repr, state)):
+            if isinstance(res, Err) or res[0] != [v for _, v in case[4]] or sorted(map(repr, res[1])) != sorted(map(repr, case[5])):
+                fail("__setstate__(__getstate__()) does not reproduce the record's fields (a copy is not an equal record)", sig="copy")
+    elif k == 9:
+        # replace() returns a new record: named fields replaced, the others kept; rdclass/rdtype refuse
+        kw = {a: b for a, b in case[7]}
+        params = case[2]
+        illegal = any(a != 2 and (a not in params or a in (0, 1)) for a in kw)
+        if illegal:
+            fail("replace() accepted rdclass/rdtype or an unknown field", sig="replace")
+        else:
+            have = dict(zip(case[3], out[0]))
+            for cid, old in case[5]:
+                want = kw.get(cid, old)
+                if cid == 2 and kw.get(2) == [5]:
+                    want = [5]
+                if have.get(cid) != want:
+                    fail("replace() did not keep / replace a field as requested", sig="replace")
+                    break
     elif k == 6:
         # a normalised binary field is bytes / a tuple of bytes, never the caller's buffer
         ok = out[0] == 2 if not case[5] else (out[0] == 6 and all(x[0] == 2 for x in out[1]))
